@@ -31,6 +31,12 @@ def dispatchOs (fn : String) (c : Ctx) : Option (Prog Out) :=
   | "ctime_s" => do
     let d ← c.p 0; let m ← c.n 1; let t ← c.p 2; let b ← c.b 3; let txt ← c.p 4
     pure (do let r ← ctime_s c.cfg d m t b txt; pure { ret := showCode r })
+  | "gmtime_s" => do
+    let t ← c.p 0; let d ← c.p 1; let r ← c.p 2
+    pure (do let r ← gmtime_s t d r; pure { ret := showCode r })
+  | "localtime_s" => do
+    let t ← c.p 0; let d ← c.p 1; let r ← c.p 2
+    pure (do let r ← localtime_s t d r; pure { ret := showCode r })
   | "gets_s" => do
     let d ← c.p 0; let m ← c.n 1; let b ← c.b 2; let i ← c.p 3; let l ← c.n 4
     pure (do let r ← gets_s c.cfg d m b i l; pure { ret := showCode r })
